@@ -277,7 +277,7 @@ def run(ctx):
     ctx.assume('printed precision: %10.3e -> 5e-4 relative, %10.3f -> 5e-4 absolute', 'selectors whose threshold equals an attained value are skipped (C05 don\'t-care)',
                'parameter values are position-encoding: (model+1)*10^column, so any row mix-up is visible at printed precision')
     ctx.require_events('FitInfo.filter_table:post', 'text:write_parameters', 'text:write_parameter_ranges', 'text:extract_parameters', 'plot_params:observed', 'history:other-package-fitted-in-between', 'listing:results-already-cut-down')
-    ctx.require_regimes('additional:ints-and-floats', 'perm:identity', 'perm:reversed', 'perm:random', 'perm:name-sorted', 'selected:0', 'selected:1', 'selected:all', 'additional', 'additional:several', 'parameter:nan', 'extract:subset',
+    ctx.require_regimes('additional:values-exactly-zero', 'additional:ints-and-floats', 'perm:identity', 'perm:reversed', 'perm:random', 'perm:name-sorted', 'selected:0', 'selected:1', 'selected:all', 'additional', 'additional:several', 'parameter:nan', 'extract:subset',
                         'input:file', 'input:object', 'input:list')
     n_pk = 8 if ctx.quick else 40
     did_plot = False
@@ -365,6 +365,9 @@ def run(ctx):
                     best_names = set(str(r_['model_name'][0]).strip() for r_ in rr if len(r_['model_name']))
                     additional = {'ZETA': {n: (int(1000 + 7 * i) if (n in best_names or i % 3 == 0) else float(1000 + 7 * i) + 0.37) for i, n in enumerate(names)}}
                     ctx.regime('additional:ints-and-floats')
+                    # an on/off quantity: exactly zero (int 0, 0.0, False) for the best-fit models and every other model, 1 elsewhere
+                    additional['ONOFF'] = {n: ([0, 0.0, False][i % 3] if (n in best_names or i % 2 == 0) else 1) for i, n in enumerate(names)}
+                    ctx.regime('additional:values-exactly-zero')
                     if (isel + ip) % 2 == 0:      # several, in non-alphabetical key order
                         additional['ALPHA'] = {n: float(-(3 + i) * 11) for i, n in enumerate(names)}
                         additional['MID'] = {n: float(0.5 + i) for i, n in enumerate(names)}
